@@ -49,6 +49,8 @@ def main():
             tech.append("explicit-state BFS to fixpoint over the real implementation (replay-rebuilt states, fingerprint dedup) against a reference model")
         if sweep:
             tech.append("complete enumeration of a finite input/configuration family on the real code")
+        if any(s["args"][0] == "family" for s in SPECS[p]["quick"]):
+            tech.append("plus a finite family of long deterministic histories (trees of 9..120 entries) through the same oracles")
         if p == "C18":
             tech.append("exhaustive callback-panic injection per transition (deviation-bounded)")
         checks.append({
